@@ -7,7 +7,7 @@ from .bitcells import (Unsupported, Param, View, Bits, CU32, ModVal, XorVal, May
 
 CONSTS = (int, bool, str, type(None))
 STR_METHODS = {'lower', 'upper', 'strip', 'lstrip', 'rstrip', 'startswith', 'endswith', 'replace', 'casefold', 'title'}
-BUILTIN_NAMES = {'int', 'divmod', 'type', 'isinstance', 'len', 'min', 'max', 'abs', 'bool', 'tuple', 'list', 'c_uint32',
+BUILTIN_NAMES = {'sum', 'int', 'divmod', 'type', 'isinstance', 'len', 'min', 'max', 'abs', 'bool', 'tuple', 'list', 'c_uint32',
                  'str', 'range', 'dict', 'sorted', 'reversed', 'enumerate', 'zip'}
 
 
@@ -90,7 +90,9 @@ class ExprMixin:
             return v
         if name in mm.global_decl:
             raise Unsupported('module-level name {!r} is rebound by a function (global statement)'.format(name))
-        if name in facts.consts and (mm.stable(name) or name in facts.tables or name in facts.sets):
+        if mm.written_by_functions(name) and not (name in facts.tables and mm.table_mode(name) == 'extended'):
+            raise Unsupported('module-level name {!r} is modified by a function'.format(name))
+        if name in facts.consts and mm.stable(name):
             v = norm_const(facts.consts[name])
             mm.values[name] = v
             return v
@@ -170,6 +172,8 @@ class ExprMixin:
             return out
         if isinstance(node, ast.JoinedStr):
             return Opaque('f-string')
+        if isinstance(node, (ast.ListComp, ast.GeneratorExp)):
+            return self.comprehension(node, st)
         if isinstance(node, ast.UnaryOp):
             if isinstance(node.op, ast.Not):
                 return self.truth_value(node, st)
@@ -203,6 +207,37 @@ class ExprMixin:
         if isinstance(node, ast.Compare):
             return self.truth_value(node, st)
         raise Unsupported('expression form {}: {}'.format(type(node).__name__, unparse(node)))
+
+    def comprehension(self, node, st):
+        """[elt for targets in <folded sequence> if <decided test> ...] unrolled"""
+        saved = dict(st.env)
+        out = []
+
+        def rec(i):
+            if st.dead:
+                return
+            if i == len(node.generators):
+                out.append(self.ev(node.elt, st))
+                return
+            g = node.generators[i]
+            if g.is_async:
+                raise Unsupported('async comprehension')
+            it = self.ev(g.iter, st)
+            if isinstance(it, dict):
+                it = list(it.keys())
+            if not isinstance(it, list):
+                raise Unsupported('comprehension over something that is not a folded sequence: {}'.format(unparse(node)))
+            for elem in it:
+                self.bind_target(g.target, elem, st, node)
+                if all(self.truth_value(c, st) for c in g.ifs):
+                    rec(i + 1)
+        rec(0)
+        bound = set(st.env) - set(saved)
+        for k in bound:
+            del st.env[k]
+        for k, v in saved.items():
+            st.env[k] = v
+        return None if st.dead else out
 
     def truth_value(self, test, st):
         """a test used as a value: only when it is decided"""
@@ -290,15 +325,7 @@ class ExprMixin:
         if not outs:
             st.dead = True
             return None
-        if len(outs) == 1:
-            j = outs[0]
-            if not exact:
-                j.imprecise = True
-        else:
-            j = self.join(outs[0], outs[1])
-            if not exact and outs[0].cells.keys() == outs[1].cells.keys() and any(
-                    outs[0].cell_key(s) != outs[1].cell_key(s) for s in outs[0].cells):
-                j.imprecise = True
+        j = outs[0] if len(outs) == 1 else self.join(outs[0], outs[1])
         v = j.env.pop('<ifexp>')
         st.become(j)
         if v is TOP:
@@ -385,6 +412,12 @@ class ExprMixin:
                     and len(a.bits) == k - 1 and all(x == (top[0], j) for j, x in enumerate(a.bits))):
                 self.retract(a, b)
                 return self.sext(top[0], k, st, node)
+        if op is ast.Add and (isinstance(a, Bits) or isinstance(b, Bits)) and isinstance(a, (Bits, int)) and isinstance(b, (Bits, int)):
+            ab, bb = self.to_bits(a, st, node), self.to_bits(b, st, node)
+            if all(x == 0 or y == 0 for x, y in zip(ab.bits, bb.bits)):
+                # no carries: the sum of bit-disjoint fields is their union
+                fake = ast.copy_location(ast.BinOp(left=node.left, op=ast.BitOr(), right=node.right), node)
+                return self.binop(fake, ab, bb, st)
         if op in (ast.Add, ast.Sub):
             if isinstance(a, View) and isinstance(b, int) and a.shift == 0 and a.trunc is None:
                 return View(a.src, a.ch, a.add + (b if op is ast.Add else -b), 0, None)
